@@ -125,8 +125,8 @@ def replay_commit(nv, ns, powers, votes):
 def c09_2(run):
     ex = quorum_engine()
     f = ex.find(r'^ensure_commit_has_quorum$')
-    shapes = [(1, 0), (1, 1), (2, 1), (2, 2)] if run.tier == 'quick' else [(1, 0), (1, 1), (1, 2), (2, 1), (2, 2), (3, 2), (3, 3), (2, 3)]
-    run.bound(validator_set='1..2 validators (3 thorough), arbitrary keys and powers', signatures='0..2 votes (3 thorough), arbitrary flags/addresses/signatures',
+    shapes = [(1, 0), (1, 1), (2, 1), (2, 2), (3, 3)] if run.tier == 'quick' else [(1, 0), (1, 1), (1, 2), (2, 1), (2, 2), (3, 2), (3, 3), (2, 3)]
+    run.bound(validator_set='1..3 validators, arbitrary keys and powers (quick: the shapes listed; thorough: all combinations up to 3 x 3)', signatures='0..3 votes, arbitrary flags/addresses/signatures',
               signature_check='oracle: an uninterpreted predicate of (public key, signature, timestamp)')
     run.bound(voting_power='each validator power < 2^59 (CometBFT caps the total at i64::MAX/8)')
     run.assume('validators of the trusted validator-set response have pairwise distinct addresses; account::Id::from(pubkey) is a function of the key')
